@@ -116,6 +116,38 @@ Proof.
   rewrite app_length, !repeat_length.
   pose proof (Nat.mod_upper_bound (length l) p ltac:(lia)). lia.
 Qed.
+(* all chunks but the last have exactly k elements *)
+Lemma chunks_full (k : nat) (l : list A) :
+  1 <= k -> Forall (fun c => length c = k) (removelast (chunks k l)).
+Proof. intros Hk. unfold chunks. apply chunks_fuel_full; [exact Hk|apply le_n]. Qed.
+
+(* the pieces of a split by count have exactly the sizes numpy documents *)
+Lemma take_sizes_shape (sizes : list nat) (l : list A) :
+  list_sum sizes <= length l -> map (@length A) (take_sizes sizes l) = sizes.
+Proof.
+  revert l; induction sizes as [|s r IH]; intros l Hl; cbn [take_sizes map]; [reflexivity|].
+  change (list_sum (s :: r)) with (s + list_sum r) in Hl.
+  rewrite firstn_length, IH.
+  - f_equal. lia.
+  - rewrite skipn_length. lia.
+Qed.
+
+Lemma split_shape (p : nat) (l : list A) :
+  1 <= p -> map (@length A) (split_n p l) = split_sizes p (length l).
+Proof.
+  intros Hp. unfold split_n. apply take_sizes_shape. rewrite split_sizes_sum; [apply le_n|exact Hp].
+Qed.
+
+Lemma split_balanced (p : nat) (l : list A) :
+  1 <= p ->
+  Forall (fun c => length l / p <= length c <= S (length l / p)) (split_n p l).
+Proof.
+  intros Hp. pose proof (split_shape p l Hp) as Hs.
+  assert (Hall : Forall (fun n => length l / p <= n <= S (length l / p)) (split_sizes p (length l))).
+  { unfold split_sizes. apply Forall_app. split; apply Forall_forall; intros n Hn;
+    apply repeat_spec in Hn; subst n; lia. }
+  rewrite <- Hs in Hall. rewrite Forall_map in Hall. exact Hall.
+Qed.
 End ChunkLemmas.
 
 Lemma concat_map_map {A B} (f : A -> B) (ll : list (list A)) :
